@@ -1,5 +1,8 @@
 import TaskModel.Resolve.GlobLemmas
 import TaskModel.Resolve.Table
+import TaskModel.Resolve.Suggest
+import TaskModel.Resolve.OfLoad
+import TaskModel.Load.OrderLemmas
 import TaskModel.Gen.ResolveOrder
 /-!
 # C15 — Task name resolution: exact name, then wildcard, then unique alias
@@ -16,9 +19,11 @@ expression `WildcardMatch` builds), pinned by `resolve_order_in_source` below.
 namespace Props.C15
 open TaskModel.Resolve
 
-/-- A decomposition of `s` along the segments of a pattern. -/
+/-- A decomposition of `s` along the segments of a pattern: one value per `*`, and the
+segments and values spell `s`.  The values are ARBITRARY strings (any character, the
+newline included: only `*` is special). -/
 def Decomp (rest : List Str) (seg0 : Str) (ws : List Str) (s : Str) : Prop :=
-  ws.length = rest.length ∧ s = seg0 ++ spellRest rest ws ∧ ∀ w ∈ ws, NoNl w
+  ws.length = rest.length ∧ s = seg0 ++ spellRest rest ws
 
 /-- **Soundness of `.MATCH`**: whatever the matcher returns spells the requested name
 exactly — pattern segments literally, wildcard values in between, one per `*`. -/
@@ -29,27 +34,84 @@ theorem C15_match_sound (seg0 : Str) (rest : List Str) (s : Str) (ws : List Str)
   · rename_i hp
     obtain ⟨t, rfl⟩ := (isPrefix_iff _ _).mp hp
     rw [drop_of_prefix] at h
-    obtain ⟨h1, h2, h3⟩ := matchRest_sound _ _ _ h
-    exact ⟨h1, by rw [h2], h3⟩
+    obtain ⟨h1, h2⟩ := matchRest_sound _ _ _ h
+    exact ⟨h1, by rw [h2]⟩
   · cases h
 
-/-- **Completeness**: every name that can be spelled from the pattern matches. -/
-theorem C15_match_complete (seg0 : Str) (rest ws : List Str)
-    (hl : ws.length = rest.length) (hn : ∀ w ∈ ws, NoNl w) :
+/-- **Completeness**: every name that can be spelled from the pattern matches — for ALL
+strings as wildcard values (since the `(?s)` fix; before it a value containing a newline
+never matched: `C15_old_rule_newline_counterexample`). -/
+theorem C15_match_complete (seg0 : Str) (rest ws : List Str) (hl : ws.length = rest.length) :
     (matchSegs (seg0 :: rest) (seg0 ++ spellRest rest ws)).isSome = true := by
   simp only [matchSegs]
   rw [if_pos ((isPrefix_iff _ _).mpr ⟨_, rfl⟩), drop_of_prefix]
-  exact matchRest_complete rest ws hl hn
+  exact matchRest_complete rest ws hl
 
-/-- **Greedy**: the first wildcard value returned is at least as long as in any other
-way of spelling the name (leftmost-longest, as Go's regexp does for `(.*)`). -/
-theorem C15_match_greedy (seg0 seg : Str) (more : List Str) (w : Str) (ws : List Str)
-    (hl : ws.length = more.length) (hn : ∀ x ∈ (w :: ws), NoNl x) :
+/-- soundness and completeness together: the names a pattern matches are EXACTLY the names
+it spells -/
+theorem C15_match_iff (seg0 : Str) (rest : List Str) (s : Str) :
+    (matchSegs (seg0 :: rest) s).isSome = true ↔ ∃ ws, Decomp rest seg0 ws s := by
+  constructor
+  · intro h
+    obtain ⟨ws, hws⟩ := Option.isSome_iff_exists.mp h
+    exact ⟨ws, C15_match_sound _ _ _ _ hws⟩
+  · rintro ⟨ws, hl, rfl⟩
+    exact C15_match_complete _ _ _ hl
+
+/-- **Greedy, every group**: among all ways of spelling the name from the pattern, the
+matcher returns the one whose first wildcard value is longest; among those, the one whose
+second value is longest; and so on (`lexLenLe ws' ws`: at the first position where the
+lengths differ, the returned value is the longer one) — leftmost-longest, as Go's regexp
+does for `(.*)`. -/
+theorem C15_match_greedy (seg0 : Str) (rest : List Str) (s : Str) (ws : List Str)
+    (h : matchSegs (seg0 :: rest) s = some ws) (ws' : List Str) (hd : Decomp rest seg0 ws' s) :
+    lexLenLe ws' ws := by
+  simp only [matchSegs] at h
+  split at h
+  · obtain ⟨hl, hs⟩ := hd
+    subst hs
+    rw [drop_of_prefix] at h
+    exact matchRest_greedy_all _ _ _ h ws' hl rfl
+  · cases h
+
+/-- the first-group corollary in the form of earlier versions -/
+theorem C15_match_greedy_first (seg0 seg : Str) (more : List Str) (w : Str) (ws : List Str)
+    (hl : ws.length = more.length) :
     ∃ w' ws', matchSegs (seg0 :: seg :: more) (seg0 ++ spellRest (seg :: more) (w :: ws))
         = some (w' :: ws') ∧ w.length ≤ w'.length := by
   simp only [matchSegs]
   rw [if_pos ((isPrefix_iff _ _).mpr ⟨_, rfl⟩), drop_of_prefix]
-  exact matchRest_greedy seg more w ws hl hn
+  exact matchRest_greedy seg more w ws hl
+
+/-- non-vacuity: `s*-*` on `sa-b-c`: the other decomposition `[a, b-c]` is below the returned
+`[a-b, c]`; a value with a newline is matched like any other -/
+example : wildcardMatch ['s','*','-','*'] ['s','a','-','b','-','c'] = some [['a','-','b'],['c']]
+    ∧ lexLenLe [['a'],['b','-','c']] [['a','-','b'],['c']] := by
+  refine ⟨by decide, ?_⟩; simp [lexLenLe]
+example : wildcardMatch ['x','-','*'] ['x','-','a','\n','b'] = some [['a','\n','b']] := by decide
+
+/-! ### Historical: the rule before the `(?s)` fix — `.` did not match a newline -/
+
+/-- length of the longest prefix without a newline (what one `(.*)` could take at most) -/
+def nlFree : Str → Nat
+  | [] => 0
+  | c :: cs => if c = '\n' then 0 else nlFree cs + 1
+
+def matchRestOld : List Str → Str → Option (List Str)
+  | [], s => if s = [] then some [] else none
+  | seg :: more, s => tryK seg (matchRestOld more) s (nlFree s)
+
+def wildcardMatchOld (pat name : Str) : Option (List Str) :=
+  match splitOn '*' pat with
+  | [] => none
+  | seg0 :: rest => if isPrefix seg0 name then matchRestOld rest (name.drop seg0.length) else none
+
+/-- the old rule: the task `x-*` did not answer to the name `x-a⏎b` although the name is
+spelled by the pattern (completeness was false for values with a newline) -/
+theorem C15_old_rule_newline_counterexample :
+    wildcardMatchOld ['x','-','*'] ['x','-','a','\n','b'] = none
+    ∧ Decomp [[]] ['x','-'] [['a','\n','b']] ['x','-','a','\n','b'] := by
+  refine ⟨by decide, by simp [Decomp, spellRest]⟩
 
 /-- **Every character other than `*` is literal**: a pattern without `*` matches exactly
 itself. -/
@@ -189,6 +251,56 @@ theorem C15_first_wildcard (tbl : List Entry) (req : Str)
     · have := hw e (List.mem_of_getElem? hi)
       rw [this] at hm; cases hm
 
+/-- **Parent file first.**  If the names `own` (the tasks of the including file, in file order)
+are a prefix of the table's names — what every merge guarantees (`load_root_prefix`) — then a
+request without exact match that one of them matches as a pattern resolves to the FIRST such
+own task, with its wildcard values, whatever patterns the tasks merged in from included
+files (they come later in the table) would match. -/
+theorem C15_parent_first (tbl : List Entry) (own : List Str) (hpre : own <+: tbl.map (·.name)) (req : Str)
+    (hne : ∀ e ∈ tbl, e.name ≠ req) (i : Nat) (p : Str) (ws : List Str)
+    (hi : own[i]? = some p) (hm : wildcardMatch p req = some ws)
+    (hfirst : ∀ j, j < i → ∀ p', own[j]? = some p' → wildcardMatch p' req = none) :
+    ∃ e, tbl[i]? = some e ∧ e.name = p ∧ resolve tbl req = .found i ws := by
+  obtain ⟨rest, hrest⟩ := hpre
+  have hlook : ∀ (k : Nat) (q : Str), own[k]? = some q → ∃ e : Entry, tbl[k]? = some e ∧ e.name = q := by
+    intro k q hk
+    have hlt : k < own.length := by
+      rcases Nat.lt_or_ge k own.length with h | h
+      · exact h
+      · rw [List.getElem?_eq_none h] at hk; cases hk
+    have h1 : (tbl.map (·.name))[k]? = some q := by
+      rw [← hrest, List.getElem?_append_left hlt]; exact hk
+    rw [List.getElem?_map] at h1
+    cases he : tbl[k]? with
+    | none => rw [he] at h1; cases h1
+    | some e => rw [he] at h1; simp only [Option.map_some, Option.some.injEq] at h1; exact ⟨e, rfl, h1⟩
+  have hown : ∀ (k : Nat) (e : Entry), k < own.length → tbl[k]? = some e → own[k]? = some e.name := by
+    intro k e hk he
+    have h1 : (tbl.map (·.name))[k]? = some e.name := by rw [List.getElem?_map, he]; rfl
+    rw [← hrest, List.getElem?_append_left hk] at h1
+    exact h1
+  obtain ⟨e, he, hn⟩ := hlook i p hi
+  have hilt : i < own.length := by
+    rcases Nat.lt_or_ge i own.length with h | h
+    · exact h
+    · rw [List.getElem?_eq_none h] at hi; cases hi
+  refine ⟨e, he, hn, C15_first_wildcard tbl req hne i e ws he (by rw [hn]; exact hm) ?_⟩
+  intro j hj e' he'
+  exact hfirst j hj e'.name (hown j e' (by omega) he')
+
+/-- … and the loaded table has that shape: the task names of the root file of the file map
+are a prefix, in file order, of the names of the resolution table `ofLoad tf` the driver
+(and `Executor.GetTask`) resolves over — for every include graph and every order of merging. -/
+theorem C15_parent_first_load (fm : TaskModel.Load.FileMap) (root : Nat) (tf : TaskModel.Load.Taskfile)
+    (h : TaskModel.Load.load fm root = .ok tf) :
+    ∃ f, TaskModel.Load.Store.get root fm = some f ∧
+      f.tasks.names.map toStr <+: (ofLoad tf).map (·.name) := by
+  obtain ⟨f, hf, hp⟩ := TaskModel.Load.load_root_prefix fm root tf h
+  refine ⟨f, hf, ?_⟩
+  rw [ofLoad_names]
+  obtain ⟨r, hr⟩ := hp
+  exact ⟨r.map toStr, by rw [← hr, List.map_append]⟩
+
 theorem findAliases_mem (req : Str) (tbl : List Entry) (b i : Nat) :
     i ∈ findAliases req tbl b ↔ ∃ k e, i = b + k ∧ tbl[k]? = some e ∧ req ∈ e.aliases := by
   induction tbl generalizing b with
@@ -256,6 +368,103 @@ theorem C15_unknown (tbl : List Entry) (req : Str)
   have := (C15_alias tbl req hne hnw).1 h0
   exact ⟨this, by rw [this]; rfl⟩
 
+/-! ## Unknown ⇒ 200 and NOTHING runs (`Executor.Run`) -/
+
+/-- **an unknown name among the requests**: if every request before it resolves and it
+resolves to nothing, the invocation is refused with code 200 — `runCheck` yields no list of
+tasks to run, whatever comes after it and whatever the earlier requests were. -/
+theorem C15_unknown_nothing_runs (tbl : List Entry) (pre post : List Str) (r : Str)
+    (hpre : ∀ x ∈ pre, ∃ i ws, resolve tbl x = .found i ws) (hr : resolve tbl r = .notFound) :
+    runCheck tbl (pre ++ r :: post) = .refused 200 := by
+  induction pre with
+  | nil => simp [runCheck, hr, Resolution.code]
+  | cons x xs ih =>
+    obtain ⟨i, ws, hx⟩ := hpre x List.mem_cons_self
+    have := ih (fun y hy => hpre y (List.mem_cons_of_mem _ hy))
+    simp only [List.cons_append, runCheck, hx, this]
+
+/-- the same for an ambiguous alias: 203, nothing runs -/
+theorem C15_conflict_nothing_runs (tbl : List Entry) (pre post : List Str) (r : Str) (is : List Nat)
+    (hpre : ∀ x ∈ pre, ∃ i ws, resolve tbl x = .found i ws) (hr : resolve tbl r = .conflict is) :
+    runCheck tbl (pre ++ r :: post) = .refused 203 := by
+  induction pre with
+  | nil => simp [runCheck, hr, Resolution.code]
+  | cons x xs ih =>
+    obtain ⟨i, ws, hx⟩ := hpre x List.mem_cons_self
+    have := ih (fun y hy => hpre y (List.mem_cons_of_mem _ hy))
+    simp only [List.cons_append, runCheck, hx, this]
+
+/-- conversely, tasks run only when EVERY request resolved, and then exactly the resolved
+tasks, one per request, in request order -/
+theorem C15_run_only_resolved (tbl : List Entry) (reqs : List Str) (is : List Nat)
+    (h : runCheck tbl reqs = .ran is) :
+    is.length = reqs.length ∧ ∀ (k : Nat) (r : Str), reqs[k]? = some r → ∃ (i : Nat) (ws : List Str), is[k]? = some i ∧ resolve tbl r = .found i ws := by
+  induction reqs generalizing is with
+  | nil => simp only [runCheck] at h; cases h; simp
+  | cons x xs ih =>
+    simp only [runCheck] at h
+    split at h
+    · rename_i i ws hx
+      split at h
+      · rename_i is' hrest
+        cases h
+        obtain ⟨h1, h2⟩ := ih is' hrest
+        refine ⟨by simp [h1], ?_⟩
+        intro k r hk
+        cases k with
+        | zero => simp at hk; subst hk; exact ⟨i, ws, by simp, hx⟩
+        | succ k => simpa using h2 k r (by simpa using hk)
+      · cases h
+    · cases h
+
+/-! ## Suggestions: the error names the closest existing task name when there is one
+
+The oracle `Suggest.classify` (edit distances; `EditDist.lev_le_iff`: `lev a b ≤ k` iff `b` is
+reachable from `a` by at most `k` elementary edits) says what is demanded of
+`TaskNotFoundError.DidYouMean`; `Suggest.meets` is the verdict the correspondence domain
+`suggest` evaluates on the suggestion the real executor gave after a real `Setup`. -/
+
+open TaskModel.Resolve.Suggest TaskModel.Resolve.EditDist in
+/-- **the closest name is suggested**: when exactly one name or alias `w` of the table is
+within two edits of the request (class `must`), a suggestion that meets the oracle IS `w`
+— a trained word, within two edits, and the only such word. -/
+theorem C15_suggestion_closest (words : List Name) (req w : Name) (dym : Option Name)
+    (hc : classify words req = .must w) (hm : meets (classify words req) dym = true) :
+    dym = some w ∧ w ∈ words ∧ EditLe 2 req w ∧ ∀ w' ∈ words, EditLe 2 req w' → w' = w := by
+  rw [hc] at hm
+  simp only [meets, beq_iff_eq] at hm
+  exact ⟨hm, classify_must words req w hc⟩
+
+open TaskModel.Resolve.Suggest TaskModel.Resolve.EditDist in
+/-- several names within two edits: there IS a suggestion and it is one of them -/
+theorem C15_suggestion_one_of_the_close (words : List Name) (req : Name) (ws : List Name) (dym : Option Name)
+    (hc : classify words req = .oneOf ws) (hm : meets (classify words req) dym = true) :
+    ∃ d, dym = some d ∧ d ∈ words ∧ EditLe 2 req d := by
+  rw [hc] at hm
+  cases dym with
+  | none => simp [meets] at hm
+  | some d =>
+    simp only [meets, List.contains_eq_mem, decide_eq_true_eq] at hm
+    exact ⟨d, rfl, ((classify_oneOf words req ws hc).2 d).mp hm⟩
+
+open TaskModel.Resolve.Suggest TaskModel.Resolve.EditDist in
+/-- **no suggestion when nothing is close**: no name within three edits (class `none`), or a
+request more than two characters longer than every name (class `skip`: the lookup is not
+even made) — a suggestion that meets the oracle is absent. -/
+theorem C15_no_suggestion_when_far (words : List Name) (req : Name) (dym : Option Name)
+    (hc : classify words req = .none ∨ classify words req = .skip)
+    (hm : meets (classify words req) dym = true) :
+    dym = Option.none ∧ ((∀ w ∈ words, ¬ EditLe 3 req w) ∨ (∀ w ∈ words, w.length + 2 < req.length)) := by
+  rcases hc with hc | hc
+  · rw [hc] at hm
+    exact ⟨by simpa [meets] using hm, Or.inl (classify_none words req hc)⟩
+  · rw [hc] at hm
+    exact ⟨by simpa [meets] using hm, Or.inr (classify_skip words req hc)⟩
+
+/-- non-vacuity: names `build`, `test`; `buld` must be answered with `build`, `qqqqqq` with nothing -/
+example : Suggest.classify [[98,117,105,108,100], [116,101,115,116]] [98,117,108,100] = .must [98,117,105,108,100]
+    ∧ Suggest.classify [[98,117,105,108,100], [116,101,115,116]] [113,113,113,113,113,113] = .none := by decide
+
 /-! ## Non-vacuity: concrete tables meeting the hypotheses -/
 
 private def tbl : List Entry :=
@@ -270,6 +479,16 @@ example : resolve tbl ['s','t','x'] = .found 2 [['x']] := by decide
 example : resolve tbl ['b'] = .conflict [0, 2] := by decide
 example : resolve tbl ['a','X','b'] = .notFound := by decide   -- '.' is literal
 example : wildcardMatch ['s','*','-','*'] ['s','a','-','b','-','c'] = some [['a','-','b'],['c']] := by decide
+/-- parent first: root file `[s*-*, x]` merged with an included `n:st*`-like later entry `st*`:
+`st-x` goes to the root's pattern (index 1 of `tbl`), not to the later `st*` -/
+example : ∃ e, tbl[1]? = some e ∧ e.name = ['s','*','-','*'] ∧ resolve tbl ['s','t','-','x'] = .found 1 [['t'],['x']] :=
+  C15_parent_first tbl [['b','u','i','l','d'], ['s','*','-','*']] ⟨[['s','t','*'], ['a','.','b']], by decide⟩
+    ['s','t','-','x'] (by decide) 1 _ _ (by decide) (by decide) (by decide)
+
+/-- `task build nosuch stx`: refused with 200, nothing runs (not even `build`); `task build stx` runs 0 then 2 -/
+example : runCheck tbl [['b','u','i','l','d'], ['n','o'], ['s','t','x']] = .refused 200 := by decide
+example : runCheck tbl [['b','u','i','l','d'], ['s','t','x']] = .ran [0, 2] := by decide
+example : runCheck tbl [['b','u','i','l','d'], ['b']] = .refused 203 := by decide
 
 /-! ## Tie to the source (regenerated every run) -/
 
@@ -279,7 +498,8 @@ than one aliased task is the conflict error, none the not-found error.
 `FindMatchingTasks` tries the exact name (`Tasks.Get`) and returns at once on a hit, then
 ranges over the table in its own order (`All(nil)`: no sorter) collecting `WildcardMatch`es.
 `WildcardMatch` anchors the quoted name with `*` (and only `*`) turned into a capture group
-and demands as many groups as the name has stars.  This is the order `Resolve.resolve`
+(under the flag `s`: the dot of `(.*)` matches the newline too) and demands as many groups as the
+name has stars.  This is the order `Resolve.resolve`
 implements (`findExact`, `findWild`, `findAliases`). -/
 theorem resolve_order_in_source :
     TaskModel.Gen.ResolveOrder.getTask =
@@ -289,8 +509,29 @@ theorem resolve_order_in_source :
     TaskModel.Gen.ResolveOrder.findMatchingTasks =
       ["return:nil", "call:Tasks.Get", "return", "range:All(nil)", "call:WildcardMatch", "return"] ∧
     TaskModel.Gen.ResolveOrder.wildcardRegexp =
-      "fmt.Sprintf(\"^%s$\", strings.ReplaceAll(regexp.QuoteMeta(‹name›), `\\*`, \"(.*)\"))" ∧
+      "fmt.Sprintf(\"(?s)^%s$\", strings.ReplaceAll(regexp.QuoteMeta(‹name›), `\\*`, \"(.*)\"))" ∧
     TaskModel.Gen.ResolveOrder.wildcardMatch = ["if:len==0", "return", "if:len!=wildcardCount", "return", "return"] := by
   decide
+
+/-- **Obligation.** `setupFuzzyModel` returns early only when NO Taskfile is loaded, sets the
+threshold to 1 (every word counts), feeds the model every key of the merged task table and
+every alias of every task (`Tasks.All(nil)`: the whole table), trains it once, and records the
+longest word; `Setup` calls it after `readTaskfile` (so before any task can run); `GetTask`
+asks the model (`SpellCheck`) on the not-found path. -/
+theorem suggestions_in_source :
+    TaskModel.Gen.ResolveOrder.fuzzyTrain =
+      ["guard:Taskfile==nil:return", "call:SetThreshold(1)", "range:Tasks.All(nil)",
+       "  ‹words› = append(‹words›, ‹key›)", "  ‹words› = slices.Concat(‹words›, ‹value›.Aliases)",
+       "call:Train(‹words›)", "range:‹words›", "  e.fuzzyModelMaxLen = max(e.fuzzyModelMaxLen, len(‹value›))"]
+    ∧ (TaskModel.Gen.ResolveOrder.setupSteps.dropWhile (· ≠ "readTaskfile")).contains "setupFuzzyModel" = true
+    ∧ TaskModel.Gen.ResolveOrder.getTask.contains "call:SpellCheck" = true := by decide
+
+/-- **Obligation.** In `Executor.Run`, the block that handles a request `GetTask` could not
+resolve calls `ListTasks` (the list of available tasks, a help for the user) and returns
+the error of `GetTask` — on every path; in particular it never returns the error of
+`ListTasks` in its place (before the fix it did: another task with a malformed dotenv file
+made `task nosuch` exit 1 without "does not exist"). -/
+theorem run_unknown_in_source :
+    TaskModel.Gen.ResolveOrder.runUnknown = ["call:ListTasks", "return:error-of-GetTask"] := by decide
 
 end Props.C15
